@@ -37,6 +37,7 @@ def run_cases(chk, binp, cases, pf_ok, pf):
     bad = []
     docs = 0
     groups = {}
+    defaults_runs = [0]
     for j in J:
         c = j["case"]
         runs = j["runs"]
@@ -69,6 +70,17 @@ def run_cases(chk, binp, cases, pf_ok, pf):
                                  "returned": r["warnings"][:6], "attached": r["errs_warnings"][:6]})
         if stop["valid"] != cont["valid"]:
             problems.append({"what": "the verdict depends on continue-on-errors", "stop_early": stop["valid"], "continue": cont["valid"]})
+        # through the package-level defaults (validate.SetContinueOnErrors + validate.Spec): as with the same options set on the validator
+        for i, (dr, base) in enumerate(zip(j["rec"].get("defaults", []), (stop, cont, stop))):
+            defaults_runs[0] += 1
+            if dr["outcome"] == "ok" and dr["valid"] == base["valid"] and only_unresolved_choice(dr["errors"], base["errors"]) and "unresolved-reference-choice" in chk.known:
+                continue
+            if dr["outcome"] != "ok" or dr["valid"] != base["valid"] or X.normalise(dr["errors"]) != X.normalise(base["errors"]):
+                problems.append({"what": "validation through the package-level defaults (global switch set to %s, step %d of false/true/false) differs from the same options set on the validator"
+                                         % (("false", "true", "false")[i], i + 1),
+                                 "through_defaults": {"outcome": dr["outcome"], "valid": dr["valid"], "errors": dr["errors"][:8]},
+                                 "on_the_validator": {"valid": base["valid"], "errors": base["errors"][:8]}})
+                break
         if "group" in c:
             groups.setdefault(c["group"], []).append((c, cont))
         if problems:
@@ -133,11 +145,11 @@ def run_cases(chk, binp, cases, pf_ok, pf):
         "evaluations": sum(2 + sum(len(v) for v in j["rec"].get("repeats", {}).values()) for j in J), "distinct_nontrivial": docs,
         "rule": "fixtures, grammar documents and edited documents (several definitions with undefined required properties, duplicate "
                 "property chains, circular ancestry), each validated in both continue-on-errors modes and %d more times per mode in the "
-                "same process, plus member-order variants of the same document; compared: verdict, error and warning sets (circular-ancestry "
+                "same process, plus member-order variants of the same document, plus one offender of every rule also validated through the package-level defaults (validate.SetContinueOnErrors false/true/false, then validate.Spec); compared: verdict, error and warning sets (circular-ancestry "
                 "messages up to the member named), monotonicity, validity vs errors, returned vs attached warnings; non-trivial = loads and "
                 "returns in both modes; distinct by document" % REPEATS[chk.tier],
         "samples": [{k: v for k, v in J[0]["case"].items() if k != "doc"}],
-        "documents": docs, "documents_with_findings": len(bad), "variant_groups": len(groups), "calls_on_reused_validators": reuse_calls,
+        "documents": docs, "documents_with_findings": len(bad), "variant_groups": len(groups), "calls_on_reused_validators": reuse_calls, "runs_through_package_defaults": defaults_runs[0],
     })
     chk.assumptions = ["another process is represented by repetitions with fresh map orders and by the fresh-copy run of the check itself"]
 
@@ -177,9 +189,15 @@ def gen(chk):
             if fn(d, rng) is not None:
                 k += 1
         cases.append({"doc": d, "origin": "%d offenders of the rule '%s' (%s)" % (k, rule, fn.__name__), "repeats": 8})
+    # one offender of every rule, validated through the package-level defaults as well (global switch false, true, false)
+    for i in range(len(G.BREAKING) * (2 if chk.tier == "quick" else 40)):
+        rule, fn, _ = G.BREAKING[i % len(G.BREAKING)]
+        d = G.SpecGen(rng).spec()
+        if fn(d, rng) is not None:
+            cases.append({"doc": d, "origin": "one offender of the rule '%s' (%s), also through the package defaults" % (rule, fn.__name__), "defaults": True})
     g = 0
     for c in list(cases):
-        if "doc" in c and rng.random() < 0.25:
+        if "doc" in c and "defaults" not in c and rng.random() < 0.25:
             g += 1
             c["group"] = g
             cases.append({"doc": shuffled(c["doc"], rng), "origin": "member-order variant", "group": g})
